@@ -3,6 +3,8 @@
 //! real time, and transfers between the two binaries.
 //!   `bin start <hexarg,hexarg,..|->`                         exit status of tftpd (or `running`)
 //!   `bin rt <flags> <timeout>`                                seconds until an unacknowledged DATA 1 is sent again
+//!   `bin early <flags> <timeout> <ws>`                        does a repeated ACK before the timeout bring a retransmission?
+//!   `bin quiet <flags> <timeout>`                             is an upload whose peer fell silent given up (file removed)?
 //!   `bin xfer <flags> <d|u> <blk> <ws> <size> <4|6>`          tftpc against tftpd, files compared
 
 use crate::util::*;
@@ -32,6 +34,9 @@ fn server_args(flags: &str, root: &Path, port: u16, v6: bool) -> Vec<String> {
     }
     if flags.contains('o') {
         a.push("--overwrite".into());
+    }
+    if flags.contains('k') {
+        a.push("--keep-on-error".into());
     }
     a
 }
@@ -89,6 +94,71 @@ pub fn run_bin(toks: &[&str], dir: &Path) -> String {
                     }
                 }
                 Err(_) => "rt=noreply".to_string(),
+            };
+            let _ = child.kill();
+            let _ = child.wait();
+            r
+        }
+        "early" => {
+            // a repeated ACK 1.5 s before the acknowledged timeout has elapsed must not bring the retransmission forward
+            let (tmo, ws) = (toks[3].parse::<u64>().unwrap(), toks[4].parse::<usize>().unwrap());
+            std::fs::write(root.join("srv").join("big"), pattern(3, 5000)).unwrap();
+            let port = free_port();
+            let mut child = Command::new(bin("VERIF_TFTPD")).args(server_args(toks[2], &root, port, false)).stdout(Stdio::null()).stderr(Stdio::null()).spawn().unwrap();
+            std::thread::sleep(Duration::from_millis(150));
+            let sock = UdpSocket::bind("127.0.0.1:0").unwrap();
+            let o = |k: tftpd::OptionType, v: usize| tftpd::TransferOption { option: k, value: v };
+            let rq = Packet::Rrq { filename: "big".into(), mode: "octet".into(), options: vec![o(tftpd::OptionType::Timeout, tmo as usize), o(tftpd::OptionType::Windowsize, ws)] };
+            sock.send_to(&rq.serialize().unwrap(), ("127.0.0.1", port)).unwrap();
+            sock.set_read_timeout(Some(Duration::from_millis(1500))).unwrap();
+            let mut buf = [0u8; 1024];
+            let r = match sock.recv_from(&mut buf) {
+                Ok((_, tid)) => {
+                    sock.send_to(&raw_ack(0), tid).unwrap();
+                    // the first window
+                    sock.set_read_timeout(Some(Duration::from_millis(400))).unwrap();
+                    let mut first = 0;
+                    while first < ws && sock.recv_from(&mut buf).is_ok() {
+                        first += 1;
+                    }
+                    sock.set_read_timeout(Some(Duration::from_millis(tmo * 1000 - 1500 - 400))).unwrap();
+                    let before = sock.recv_from(&mut buf).is_ok();
+                    let early = if before {
+                        true
+                    } else {
+                        sock.send_to(&raw_ack(0), tid).unwrap();
+                        sock.set_read_timeout(Some(Duration::from_millis(1100))).unwrap();
+                        matches!(sock.recv_from(&mut buf), Ok((n, _)) if n >= 4 && buf[1] == 3)
+                    };
+                    let _ = sock.send_to(&raw_error(0, "done"), tid);
+                    format!("first={first} early={}", early as u8)
+                }
+                Err(_) => "noreply".to_string(),
+            };
+            let _ = child.kill();
+            let _ = child.wait();
+            r
+        }
+        "quiet" => {
+            // an upload whose peer falls silent after the handshake: given up after six time-outs, the partial file removed
+            // (kept with --keep-on-error)
+            let tmo = toks[3].parse::<u64>().unwrap();
+            let port = free_port();
+            let mut child = Command::new(bin("VERIF_TFTPD")).args(server_args(toks[2], &root, port, false)).stdout(Stdio::null()).stderr(Stdio::null()).spawn().unwrap();
+            std::thread::sleep(Duration::from_millis(150));
+            let sock = UdpSocket::bind("127.0.0.1:0").unwrap();
+            let wq = Packet::Wrq { filename: "quiet.bin".into(), mode: "octet".into(), options: vec![tftpd::TransferOption { option: tftpd::OptionType::Timeout, value: tmo as usize }] };
+            sock.send_to(&wq.serialize().unwrap(), ("127.0.0.1", port)).unwrap();
+            sock.set_read_timeout(Some(Duration::from_millis(1500))).unwrap();
+            let mut buf = [0u8; 1024];
+            let r = match sock.recv_from(&mut buf) {
+                Ok((n, _)) if n >= 2 && buf[1] == 6 => {
+                    std::thread::sleep(Duration::from_millis(100));
+                    let created = root.join("srv").join("quiet.bin").exists();
+                    std::thread::sleep(Duration::from_millis(tmo * 6000 + 1300));
+                    format!("created={} gone={}", created as u8, !root.join("srv").join("quiet.bin").exists() as u8)
+                }
+                _ => "noreply".to_string(),
             };
             let _ = child.kill();
             let _ = child.wait();
@@ -276,6 +346,11 @@ pub fn gen_bin(_rng: &mut Rng, _count: u64, tier: &str) -> Vec<String> {
     out.push("bin dup 2 3 1".into());
     out.push("bin rt - 1".into());
     out.push("bin rt s 2".into());
+    out.push("bin early - 7 3".into());
+    out.push("bin early s 7 1".into());
+    out.push("bin quiet - 1".into());
+    out.push("bin quiet s 1".into());
+    out.push("bin quiet k 1".into());
     let mut grid = vec![];
     for flags in ["-", "s", "d", "so"] {
         for (blk, ws) in [("512", "1"), ("8", "4"), ("1468", "8"), ("65464", "2"), ("1024", "64")] {
@@ -296,6 +371,9 @@ pub fn gen_bin(_rng: &mut Rng, _count: u64, tier: &str) -> Vec<String> {
         out.push("bin xfer - d 8 16 530000 4".into()); // more than 65535 blocks between the real binaries
         out.push("bin xfer s u 8 16 530000 4".into());
         out.push("bin rt - 3".into());
+        out.push("bin early - 6 2".into());
+        out.push("bin early s 3 1".into());
+        out.push("bin quiet sk 1".into());
     }
     out.extend(gen_bin_dirs());
     out
